@@ -25,6 +25,9 @@ def run(ctx):
         "timestamps > 0 (a stored timestamp <= 0 is delivered as the zero time.Time)",
     ]
     broken = []
+    ok, log = ctx.extract("decoder", ["lean/KafkaVerif/Gen/DecoderFacts.lean"])
+    if not ok:
+        broken.append({"kind": "obligation", "name": "translator go/extract decoder (message_reader.go, batch.go, conn.go, reader.go → Gen/DecoderFacts.lean)", "detail": log[-1500:]})
     res = ctx.prove(MODULE)
     if not res["ok"]:
         broken.append({"kind": "obligation", "theorems": res["failed"], "detail": res["reasons"][:10]})
